@@ -3,8 +3,9 @@
 
 Copy /repo/src and put std's synchronisation primitives behind the simulator's seam at the
 SOURCE level: std::sync::atomic, std::sync::{Mutex, RwLock, Condvar, Barrier, Once, mpsc},
-and std::thread become shuttle's (thread_local! stays std's, see below), std::time::Instant
-becomes the simulated clock simctx::time::Instant. Every access to such a primitive is then a
+and std::thread become shuttle's; Once/OnceLock/LazyLock, every primitive of a file that declares
+`static` synchronisation items, and thread_local! become the simulator's own (simctx::sync,
+simctx::tls); std::time::Instant becomes the simulated clock simctx::time::Instant. Every access to such a primitive is then a
 scheduling point the simulator owns, wherever in the crate it is (hook H1 covers only the three
 planner files and only their existing imports). Nothing else is touched; the copy is rebuilt from
 the current working tree on every check.
@@ -16,25 +17,35 @@ src, final = args[0], args[1]
 out = tempfile.mkdtemp(prefix='rw-', dir=os.path.dirname(final.rstrip('/')) or '.')
 os.rmdir(out)
 shutil.copytree(src, out, ignore=shutil.ignore_patterns('visualize'))
-SYNC = {'Mutex', 'MutexGuard', 'RwLock', 'RwLockReadGuard', 'RwLockWriteGuard', 'Condvar', 'Barrier', 'Once', 'mpsc', 'atomic'}
+SYNC = {'Mutex', 'MutexGuard', 'RwLock', 'RwLockReadGuard', 'RwLockWriteGuard', 'Condvar', 'Barrier', 'mpsc', 'atomic'}
+# process-lifetime cells: always the simulator's (std's block the OS thread all tasks share while
+# another task is inside the initialiser; shuttle has no OnceLock/LazyLock)
+CELLS = {'Once', 'OnceLock', 'LazyLock', 'OnceState'}
+# primitives that exist in simctx::sync (usable in `static` items)
+IN_SIMCTX = {'Mutex', 'MutexGuard', 'RwLock', 'RwLockReadGuard', 'RwLockWriteGuard', 'atomic'}
 
-def split_group(m):
-    indent, items = m.group(1), m.group(2)
-    parts, depth, cur = [], 0, ''
-    for ch in items:
-        if ch == '{': depth += 1
-        if ch == '}': depth -= 1
-        if ch == ',' and depth == 0:
-            parts.append(cur.strip()); cur = ''
-        else:
-            cur += ch
-    if cur.strip(): parts.append(cur.strip())
-    sh = [p for p in parts if re.split(r'\W', p)[0] in SYNC]
-    st = [p for p in parts if p not in sh]
-    lines = []
-    if st: lines.append(f"{indent}use std::sync::{{{', '.join(st)}}};")
-    if sh: lines.append(f"{indent}use shuttle::sync::{{{', '.join(sh)}}};")
-    return '\n'.join(lines)
+def make_split_group(static_file):
+    def split_group(m):
+        indent, items = m.group(1), m.group(2)
+        parts, depth, cur = [], 0, ''
+        for ch in items:
+            if ch == '{': depth += 1
+            if ch == '}': depth -= 1
+            if ch == ',' and depth == 0:
+                parts.append(cur.strip()); cur = ''
+            else:
+                cur += ch
+        if cur.strip(): parts.append(cur.strip())
+        head = lambda p: re.split(r'\W', p)[0]
+        sx = [p for p in parts if head(p) in CELLS or (static_file and head(p) in IN_SIMCTX)]
+        sh = [p for p in parts if head(p) in SYNC and p not in sx]
+        st = [p for p in parts if p not in sh and p not in sx]
+        lines = []
+        if st: lines.append(f"{indent}use std::sync::{{{', '.join(st)}}};")
+        if sh: lines.append(f"{indent}use shuttle::sync::{{{', '.join(sh)}}};")
+        if sx: lines.append(f"{indent}use simctx::sync::{{{', '.join(sx)}}};")
+        return '\n'.join(lines)
+    return split_group
 
 n_files = 0
 for root, _, files in ([] if plain else os.walk(out)):
@@ -44,13 +55,15 @@ for root, _, files in ([] if plain else os.walk(out)):
         s = open(p).read()
         o = s
         # A `static` of a synchronisation type outlives a simulated execution; shuttle's primitives
-        # carry per-execution bookkeeping (vector clocks) and must not. Files that declare such
-        # statics keep std's primitives (their accesses are then not scheduling points; work-item
-        # boundaries still are).
-        if re.search(r'(?m)^\s*(pub(\([^)]*\))?\s+)?static\s+(mut\s+)?\w+\s*:\s*[^=;]*\b(Atomic\w+|Mutex|RwLock|Once|OnceLock|LazyLock|Condvar|Barrier)\b', s):
-            continue
-        s = re.sub(r'(?m)^(\s*)use std::sync::\{([^;]*)\};', split_group, s)
-        s = re.sub(r'\bstd::sync::(atomic|Mutex|MutexGuard|RwLock|RwLockReadGuard|RwLockWriteGuard|Condvar|Barrier|Once\b|mpsc)', r'shuttle::sync::\1', s)
+        # carry per-execution bookkeeping and must not. In files that declare such statics the
+        # primitives become simctx::sync's: data and poison flag live for the process, the lock
+        # state is a shuttle primitive created per execution (see sim/simctx/src/sync.rs).
+        static_file = bool(re.search(r'(?m)^\s*(pub(\([^)]*\))?\s+)?static\s+(mut\s+)?\w+\s*:\s*[^=;]*\b(Atomic\w+|Mutex|RwLock|Once|OnceLock|LazyLock|Condvar|Barrier)\b', s))
+        s = re.sub(r'(?m)^(\s*)use std::sync::\{([^;]*)\};', make_split_group(static_file), s)
+        s = re.sub(r'\bstd::sync::(OnceLock|LazyLock|OnceState|Once\b)', r'simctx::sync::\1', s)
+        if static_file:
+            s = re.sub(r'\bstd::sync::(atomic|MutexGuard|Mutex|RwLockReadGuard|RwLockWriteGuard|RwLock)\b', r'simctx::sync::\1', s)
+        s = re.sub(r'\bstd::sync::(atomic|Mutex|MutexGuard|RwLock|RwLockReadGuard|RwLockWriteGuard|Condvar|Barrier|mpsc)\b', r'shuttle::sync::\1', s)
         # the clock seam: Instant becomes the simulated clock (Duration stays std's)
         def split_time(m):
             indent, items = m.group(1), [x.strip() for x in m.group(2).split(',') if x.strip()]
@@ -63,10 +76,10 @@ for root, _, files in ([] if plain else os.walk(out)):
         s = re.sub(r'\bstd::time::Instant\b', 'simctx::time::Instant', s)
         s = re.sub(r'\bstd::thread::(spawn|scope|sleep|yield_now|current|park|JoinHandle|Builder|ThreadId)\b', r'shuttle::thread::\1', s)
         s = re.sub(r'(?m)^(\s*)use std::thread;', r'\1use shuttle::thread;', s)
-        # thread_local! is deliberately NOT rewritten: all simulated tasks of a shard run on one OS
-        # thread, so std's thread-locals behave as they do for a caller that does everything from
-        # one thread (rayon, too, re-enters a worker while it waits on nested work): state kept in
-        # them survives from call to call, which is exactly what history-dependent defects need.
+        # thread_local! becomes the simulator's model of thread-locals (sim/simctx/src/tls.rs):
+        # one value per THREAD IDENTITY, which concurrently live tasks never share and which
+        # survives from call to call like the threads being modelled.
+        s = re.sub(r'(?<![\w:])(std::)?thread_local!', 'simctx::sim_thread_local!', s)
         if s != o:
             open(p, 'w').write(s)
             n_files += 1
